@@ -7,7 +7,9 @@ PROP = {
              "destination allowed or filtered, call duration), advance(delta: absolute, cool-down +-{0, .125, .25, .5, 1}s, or to the expiry instant "
              "+-{0, .125, .25, 1}s), read of state_ok} against the real FailSafe built from the environment variables "
              "(threshold 1-5, cool-down 1-10 s) and used exactly like hooks/requests.py uses it; (2) the same histories issued as "
-             "Session.request() calls through the real RequestsHook closure with stub requests/yarl modules and three filter configurations; "
+             "Session.request() calls through the real RequestsHook closure with stub requests/yarl modules and three filter configurations, "
+             "where the stub gateway may first answer 0-3 times with its retry protocol (x-lunar-retry-after + x-lunar-sequence-id: 'send this again in n s') "
+             "before the generated outcome, and the call is judged by how its last request through the gateway ended; "
              "(3) traffic-filter cases: LUNAR_BLOCK_LIST / LUNAR_ALLOW_LIST strings (absent, empty, valid, invalid, mixed), a generated resolver "
              "table (address, failure kind, fails-until step) and 1-5 queries whose destination is an IPv4 literal (range edges, private, "
              "public, special), an IPv6 literal, a name of the table, a list entry, a numeric form, or an ill-formed name. "
